@@ -435,6 +435,7 @@ func runC14(c *Ctx) {
 	runC14GlobalGuards(c, "O11")
 	runC14GroupBoundary(c)
 	runC14AddTaskIndex(c)
+	runC14ConvertPairs(c)
 
 	// O6: status lattice
 	runStatusConsts(c, "O6")
@@ -603,4 +604,39 @@ func runC14AddTaskIndex(c *Ctx) {
 			"a pod can be filed and charged although the node already holds it ("+pathStr(path)+")")
 	}
 	c.Floor("O13", "DOM/MPT index writes of addTask", nd+ni, 2)
+}
+
+// runC14ConvertPairs (O14): ConvertAllAllocatedToPipelined replaces every allocation of a gang by a nomination. The
+// nomination (Statement.Pipeline) fires the plugins' allocate handlers again; the allocation it replaces must
+// therefore be taken back first (Statement.unallocate fires the deallocate handlers), on every path to the Pipeline
+// call — otherwise every converted pod is charged twice to its queue and all ancestors while the gang waits.
+func runC14ConvertPairs(c *Ctx) {
+	f := c.Anchor("O14", pkgFramework, "Statement", "ConvertAllAllocatedToPipelined")
+	if f == nil {
+		return
+	}
+	unalloc := c.P.Func(pkgFramework, "Statement", "unallocate")
+	pipe := c.P.Func(pkgFramework, "Statement", "Pipeline")
+	n := 0
+	for _, h := range c.P.deepFind(f, isCallToFn(pipe), 1) {
+		n++
+		root := h.In
+		if len(h.Chain) > 0 {
+			root = h.Chain[0]
+		}
+		fn := h.In.Parent()
+		lh := loopHeaderOf(h.In.Block())
+		starts := []cfgPos{entryPos(fn)}
+		if lh != nil {
+			starts = nil
+			for _, s := range loopBodyEntries(lh) {
+				starts = append(starts, cfgPos{B: s, I: 0})
+			}
+		}
+		this := h.In
+		_, path, found := reachAvoiding(starts, func(x ssa.Instruction) bool { return x == this }, isCallToFn(unalloc), nil)
+		c.Check(!found, "O14", "MPT", funcKey(f)+": an allocation is taken back before it is replaced by a nomination", instrPos(root), "unallocate precedes Pipeline on every path",
+			"Pipeline is reached without the unallocate of the allocation it replaces ("+pathStr(path)+"): the allocate handlers fire a second time without the matching deallocate, and the queue (and every ancestor) is charged twice for each converted pod")
+	}
+	c.Floor("O14", "MPT conversions", n, 1)
 }
